@@ -44,6 +44,11 @@ def gen_case(rng, idx):
     nk = rng.choice([1, 1, 2, 2, 3])
     keys = rng.sample(KEYS, nk)
     asc = [rng.random() < 0.6 for _ in keys]
+    if rng.random() < 0.3:
+        # the same key again (it can never break a tie left by its first occurrence), usually with the other direction
+        j = rng.randrange(len(keys))
+        keys.append(keys[j])
+        asc.append((not asc[j]) if rng.random() < 0.8 else asc[j])
     where = rng.choice(["", "", "where size >= 10", "where is_file = true", "where name != 'a'", "where size < 100"])
     trav = rng.choice(["", "", "dfs", "bfs"])
     # select list: path first, then possibly some keys (so that positional spelling can be used)
